@@ -11,6 +11,16 @@ CHECKS = {
              '(floor(log2 n) in {bitlen-1, bitlen}; exact below 2^40) which is validated only by concrete evaluation at 2^k+d.',
         technique=TECH),
 }
+CHECKS['C16'] = dict(
+    text='OP_CHECK_TIMESTAMP / OP_CHECK_EPOCH and their _VERIFY forms are executed symbolically for unbounded integer t, '
+         'now and thresholds and every constraint byte string of 1..9 (thorough 1..24) bytes; the three lock builders are '
+         'executed end to end (f-string, compiler, run_auth_scripts) with symbolic timestamps; each verdict is compared with '
+         'the documented predicate by an unsat query. Linear integer arithmetic, so within the byte-length bound the '
+         'window boundaries are decided for all values, not sampled.',
+    design_ref='DESIGN.md section 4 C16',
+    note='Trusted: SX engine (witness replay per path), z3, clock stub (time() = arbitrary integer now >= 0), log2 contract '
+         'stub inside int_to_bytes. Known finding F5 (before-lock accepts far-future t) is listed in known_findings.json.',
+    technique=TECH)
 NOT_APPLICABLE = {}
 NOTES = ('Exit codes of every check: 0 held on everything explored; 1 + VIOLATION line for a counterexample that was '
          'replayed on the real package and is not a listed known finding; 2 harness error / unsupported construct / '
